@@ -1431,7 +1431,7 @@ func (t *Tree) RemoveEdges(removeRoot, removeTips bool, edges ...*Edge) {
 			continue
 		}
 		// Root node
-		if !removeRoot && (e.Right().Nneigh() == 2 || e.Left().Nneigh() == 2) {
+		if !removeRoot && e.Left() == t.Root() && e.Left().Nneigh() == 2 {
 			continue
 		}
 		// Remove the edge from left and right node
